@@ -115,6 +115,11 @@ func ParseNum(s string, n *NumInfo) error {
 		n.next()
 		seenDecimalPoint = true
 	}
+	if n.ch == '_' {
+		// '_' may only separate digits; the scanner reads a leading '_' as
+		// the start of an identifier, never as part of a number.
+		return n.errorf("illegal number start %q", s)
+	}
 	err := n.scanNumber(seenDecimalPoint)
 	if err != nil {
 		return err
